@@ -333,7 +333,9 @@ class DomainManager(DomainManagerBase):
             return [
                 self.rm_map[domain_str]
                 for domain_str in self.rm_map.keys()
-                if match_error_handler(self.domain_matching_func, domain_str, domain_pattern)
+                # the manager of the domain itself was built from these links, whatever the function says of it
+                if domain_str == domain_pattern
+                or match_error_handler(self.domain_matching_func, domain_str, domain_pattern)
             ]
         else:
             return [self.rm_map[domain_pattern]] if domain_pattern in self.rm_map else []
@@ -364,7 +366,9 @@ class DomainManager(DomainManagerBase):
             # a cached manager may hold the same link through another matching domain: rebuild it from the links
             domain_pattern = self._get_domain(*domain)
             for domain_str in list(self.rm_map.keys()):
-                if match_error_handler(self.domain_matching_func, domain_str, domain_pattern):
+                if domain_str == domain_pattern or match_error_handler(
+                    self.domain_matching_func, domain_str, domain_pattern
+                ):
                     del self.rm_map[domain_str]
             return
         for rm in self._affected_role_managers(*domain):
